@@ -976,6 +976,38 @@ pub fn reparenthesised_texts(l: [&str; 3]) -> Vec<String> {
     out
 }
 
+/// Until operators with COMPOUND operands over up to four propositions: the left operand a literal (it depends on one variable
+/// only), the right operand a conjunction of two or three literals over other / the same variables (not included in the left one).
+/// `L EU R`, `L AW R`, `L AU R`, `L EW R`: what a saturation does per variable matters only when the operands ignore some variables.
+pub fn until_compound_family(nprops: u8) -> Vec<F> {
+    let n = nprops.min(4);
+    let lit = |i: u8, pos: bool| if pos { F::Prop(i) } else { F::un(Un::Not, F::Prop(i)) };
+    let mut rights: Vec<F> = vec![];
+    for i in 0..n {
+        for j in (i + 1)..n {
+            for (pi, pj) in [(true, true), (true, false), (false, true)] {
+                rights.push(F::bin(Bi::And, lit(i, pi), lit(j, pj)));
+            }
+            for k in (j + 1)..n {
+                for (pi, pj, pk) in [(true, true, true), (false, true, true), (true, false, true), (true, true, false)] {
+                    rights.push(F::bin(Bi::And, F::bin(Bi::And, lit(i, pi), lit(j, pj)), lit(k, pk)));
+                }
+            }
+        }
+    }
+    let mut out = vec![];
+    for li in 0..n {
+        for lp in [true, false] {
+            for r in &rights {
+                for op in [Bi::EU, Bi::AW, Bi::AU, Bi::EW] {
+                    out.push(F::bin(op, lit(li, lp), r.clone()));
+                }
+            }
+        }
+    }
+    out
+}
+
 /// Wild-card propositions counted across scopes: %p% several times inside the scope of a variable with a restricted domain
 /// (within a duplicated sub-formula that does not mention the variable), and one to three more times outside it, in both orders.
 /// Texts (user syntax with %p%, %d%, proposition a); bookkeeping of how often a context set is still needed must not depend on scopes.
